@@ -46,6 +46,8 @@ def run(ctx, crate):
     D.rule_finished_draws_forced(ctx, crate)
     # "visibly finished bars keep their final rendering": the rows of a reaped finished bar are kept by their wrap-aware count
     D.rule_rows_newtype(ctx, crate)
+    # "nothing at all for the clearing variant": the paint protocol, in particular an empty final frame clears the old rows
+    D.rule_draw_order(ctx, crate)
 
 
 def status_stores(b):
